@@ -247,6 +247,9 @@ const prelude = `(set-option :produce-models true)
 (define-fun wrap8 ((x Int)) Int (- (mod (+ x 128) 256) 128))
 (declare-fun pow10 (Int) Int)
 (declare-fun strcat (Int Int) Int)
+(declare-fun bitlenf (Int) Int)
+(declare-fun tdivf (Int Int) Int)
+(declare-fun tremf (Int Int) Int)
 (declare-fun strlen (Int) Int)
 (declare-fun uf1 (Int Int) Int)
 (declare-fun uf2 (Int Int Int) Int)
@@ -302,8 +305,10 @@ func (c *Ctx) TDivRem(n, m Term) (Term, Term) {
 		q = c.Define("q", SInt, q)
 		r = c.Define("r", SInt, r)
 	} else {
-		q = c.Fresh("q", SInt)
-		r = c.Fresh("r", SInt)
+		// uninterpreted function applications (so that equal arguments give equal results by
+		// congruence) constrained by the defining property of truncated division
+		q = c.Define("q", SInt, app("tdivf", n, m))
+		r = c.Define("r", SInt, app("tremf", n, m))
 		// m != 0 => n = q*m + r, |r| < |m|, r has the sign of n (or is 0)
 		c.Assert(Implies(Not(Eq(m, "0")), And(
 			Eq(n, Add(Mul(q, m), r)),
@@ -356,7 +361,7 @@ func (c *Ctx) BitLen(x Term) Term {
 	if t, ok := c.memo[key]; ok {
 		return t
 	}
-	r := c.Fresh("bl", SInt)
+	r := app("bitlenf", x)
 	cs := []Term{Ge(r, "0"), Eq(Eq(r, "0"), Eq(x, "0"))}
 	for _, k := range bitlenKs {
 		cs = append(cs, Eq(Gt(r, Lit(int64(k))), Ge(Abs(x), Pow2(k))))
@@ -410,6 +415,9 @@ func runSolver(s Solver, file string, timeoutS int) (string, string, float64) {
 		}
 		return first, rest, el
 	}
+	if strings.HasPrefix(first, "(error") {
+		return "error", txt, el
+	}
 	return "unknown", txt, el
 }
 
@@ -430,6 +438,11 @@ func Solve(query string, scratchDir, name string, timeoutS int, getValues []stri
 	}
 	st, model, el := runSolver(solvers[0], file, quick)
 	res.Tried = append(res.Tried, fmt.Sprintf("%s:%s:%.2fs", solvers[0].Name, st, el))
+	if st == "error" {
+		first := strings.SplitN(model, "\n", 2)[0]
+		res.Status, res.Solver, res.TimeS, res.Model = "error", solvers[0].Name, el, first
+		return res
+	}
 	if st != "unknown" {
 		res.Status, res.Solver, res.TimeS, res.Model = st, solvers[0].Name, el, model
 		return res
@@ -451,7 +464,7 @@ func Solve(query string, scratchDir, name string, timeoutS int, getValues []stri
 	for range solvers {
 		x := <-ch
 		res.Tried = append(res.Tried, fmt.Sprintf("%s:%s:%.2fs", x.s.Name, x.st, x.el))
-		if x.st != "unknown" && res.Status == "" {
+		if x.st != "unknown" && x.st != "error" && res.Status == "" {
 			res.Status, res.Solver, res.TimeS, res.Model = x.st, x.s.Name, total+x.el, x.m
 			// do not wait for the others
 			return res
